@@ -14,7 +14,7 @@ from harness.indep import tcpcl_codec as codec
 SESS_MOVES = ['seg_nostart_unknown', 'seg_end_unknown', 'ack_unknown', 'ack_finished', 'ack_own_end', 'ack_own_mid',
               'refuse_unknown', 'refuse_sent_unacked',
               'refuse_own', 'unknown_type', 'xfer_ok', 'xfer_start', 'xfer_mismatch', 'xfer_cont_end', 'ka',
-              'reject_msg', 'term', 'term_twice', 'term_reply', 'ch_again',
+              'reject_msg', 'term', 'term_twice', 'term_reply', 'ch_again', 'init_again',
               'ack_other_conn', 'ack_other_conn_end', 'refuse_other_conn', 'xfer_start_2g', 'xfer_start_max']
 PRE_INIT_MOVES = ['seg', 'ack', 'refuse', 'term', 'ka', 'unknown_type', 'ack_early_own', 'refuse_early_own']
 PRE_CH_MOVES = ['bad_magic', 'bad_version', 'seg_first', 'bad_magic_then_good']
@@ -251,6 +251,9 @@ class Adversary(object):
             self.send(codec.enc_sess_term(0, 1))
         elif name == 'ch_again':
             self.send(codec.enc_contact(0))
+        elif name == 'init_again':
+            # a second SESS_INIT in the middle of the session, announcing other parameters
+            self.send(codec.enc_sess_init(keepalive=7, seg_mru=50, xfer_mru=2 ** 20, node_id='dtn://someone-else/'))
         elif name == 'seg':
             self.send(codec.enc_segment(5, self.data(1), codec.SEG_START | codec.SEG_END, [codec.ext_total_length(1)]))
         elif name == 'ack':
